@@ -195,6 +195,8 @@ class HFn:
             return 'HCall.constArg (%s)' % self.hidx(args[1])
         if cal == 'check_int_arg':
             return 'HCall.intArg (%s)' % self.hidx(args[1])
+        if cal == 'check_uint_arg':
+            return 'HCall.uintArg (%s)' % self.hidx(args[1])
         if cal == 'check_deriv_arg':
             return 'HCall.derivArg (%s) (%s) (%s)' % (self.iexp(args[1]), self.iexp(args[2]), self.iexp(args[3]))
         self.err('call of %s inside a helper is not modelled' % cal, n)
@@ -237,7 +239,7 @@ class HFn:
                 if self.params.get(self.ref(x)) == ('res',):
                     return 'HCond.resNaN'
                 self.err('gsl_isnan of something the model has no bit for', n)
-            if cal in ('check_const_arg', 'check_int_arg', 'check_deriv_arg'):
+            if cal in ('check_const_arg', 'check_int_arg', 'check_uint_arg', 'check_deriv_arg'):
                 return 'HCond.call (%s)' % self.hcall(n)
         self.err('unsupported condition', n)
 
@@ -338,6 +340,9 @@ class HFn:
             v = strip(ks[0])
             if self.rettype == 'int' and v.get('kind') == 'IntegerLiteral' and v['value'] in ('0', '1'):
                 return 'HStmt.retB %s' % ('true' if v['value'] == '1' else 'false')
+            if self.rettype == 'int' and v.get('kind') == 'CallExpr' and self.callee(v) in ('check_const_arg', 'check_int_arg', 'check_uint_arg', 'check_deriv_arg'):
+                # `return helper(...)` of a 0/1-valued helper  ==  `if (helper(...)) return 1; else return 0;`
+                return 'HStmt.ite (HCond.call (%s)) (HStmt.retB true) (HStmt.retB false)' % self.hcall(v)
             if self.rettype == 'double':
                 if v.get('kind') == 'IntegerLiteral' and v['value'] == '0':
                     return 'HStmt.retZero'
@@ -366,7 +371,7 @@ class HFn:
                 if kind is None or not self.is_al(args[0]):
                     self.err('format_eval_error with an unknown prefix', s)
                 return 'HStmt.setErr ErrK.%s' % kind
-            if cal in ('check_const_arg', 'check_int_arg', 'check_deriv_arg'):
+            if cal in ('check_const_arg', 'check_int_arg', 'check_uint_arg', 'check_deriv_arg'):
                 return 'HStmt.evalc (HCond.call (%s))' % self.hcall(s)
             self.err('unsupported call statement %s' % cal, s)
         if s.get('kind') == 'BinaryOperator' and s.get('opcode') == '=':
